@@ -5,7 +5,7 @@ CHECK = Check(
     "C03",
     streams=[emit_stream("c03", drv="c03"),
              # three units of this check's own (Gen/GenC03x.v): structs held by value as map entries with nested fields
-             # (finding nested_in_map_entry, fixed by 2f8b339; inside the sound fragment since)
+             # (finding nested_in_map_entry, fixed by e955906; inside the sound fragment since)
              emit_stream("c03x", drv="c03x", unitsdrv="c03xunits"),
              # two units of this check's own (Gen/GenC03b.v), inside the sound fragment: an element of every integer and
              # float kind the shared quick units lack, for the boundary sweep
